@@ -302,7 +302,7 @@ for (Cn, Rn) in ((2, 2), (2, 3), (3, 3), (4, 3), (4, 4)):
 for name, drv_ in drivers.items():
     P.build(drv_, 'flat', tag=name)
 for fn, real, kw in contracts:
-    P.contract(fn, real.strip(), unwind=kw.pop('unwind', 2), **kw)
+    P.contract(fn, real.strip(), unwind=kw.pop('unwind', 2), uf_float=('fmul', 'fdiv', 'sqrt', 'fmod', 'frem'), timeout=120, **kw)
 
 P.level_text = ('for every generated (function x argument shape x length 1..4 x element type x qualifier) instantiation, component i of the '
                 'vector result is proved bit-identical to the scalar overload (or built-in operator) applied to component i, for all argument '
